@@ -249,20 +249,24 @@ func m1vOverflowCase(c *corr.Ctx, name string) {
 	e.Init() //nolint:errcheck
 	d := &rtpmpeg1video.Decoder{}
 	d.Init() //nolint:errcheck
-	// picture header, one 600 KiB slice, one small slice (sent alone in the last packet)
-	bigFrame := func(b byte) []byte {
+	// picture header, one 600 KiB slice, optionally one small slice (sent alone in the last packet)
+	bigFrame := func(b byte, tail bool) []byte {
 		f := []byte{0, 0, 1, 0, 0x12, 0x08}
 		f = append(f, 0, 0, 1, 1)
 		for i := 0; i < 600*1024; i++ {
 			f = append(f, b)
 		}
-		f = append(f, 0, 0, 1, 2)
-		for i := 0; i < 1440; i++ {
-			f = append(f, b)
+		if tail {
+			f = append(f, 0, 0, 1, 2)
+			for i := 0; i < 1440; i++ {
+				f = append(f, b)
+			}
 		}
 		return f
 	}
-	f0, f1 := bigFrame(0x11), bigFrame(0x22)
+	// f0's last packet (the small slice, with the marker) is dropped: its 600 KiB slice stays buffered;
+	// f1 ends with its 600 KiB slice, whose end fragment carries the marker
+	f0, f1 := bigFrame(0x11, true), bigFrame(0x22, false)
 	f2 := append([]byte{0, 0, 1, 0, 0x12, 0x08, 0, 0, 1, 1}, bytes.Repeat([]byte{0x33}, 3000)...)
 	var got []byte
 	ts := uint32(1000)
